@@ -219,7 +219,25 @@ def r8_refcell(text: str, names) -> List[Edit]:
         if t.text in local and i >= 10 and [x.text for x in ct[i - 10:i]] == ['let', t.text, '=', 'Rc', '::', 'new', '(', 'RefCell', '::', 'new'][:10] :
             continue
         nx = [x.text for x in ct[i + 1:i + 7]]
-        if nx[:5] == [':', 'Rc', '<', 'RefCell', '<']:
+        if nx[:6] == [':', '&', 'Rc', '<', 'RefCell', '<']:
+            # `P: &Rc<RefCell<T>>` -> `P: &mut T`
+            k0 = ct[i + 4].start
+            depth, k = 0, k0
+            while k < len(text):
+                if text[k] == '<':
+                    depth += 1
+                elif text[k] == '>' and text[k - 1] != '-':
+                    depth -= 1
+                    if depth == 0:
+                        break
+                k += 1
+            inner_start = ct[i + 7].start
+            inner = text[inner_start:text.rfind('>', inner_start, k)]
+            out.append(Edit(ct[i + 2].start, k + 1, '&mut ' + inner.strip(), 'R8', '%s: &Rc<RefCell<T>> -> &mut T' % t.text))
+        elif t.text in local and i >= 1 and ct[i - 1].text == '&' and (i + 1 >= len(ct) or ct[i + 1].text != '.'):
+            # `&P` handed to a callee that takes `&Rc<RefCell<T>>` -> `&mut P`
+            out.append(Edit(ct[i - 1].start, t.end, '&mut ' + t.text, 'R8', '&%s -> &mut %s' % (t.text, t.text)))
+        elif nx[:5] == [':', 'Rc', '<', 'RefCell', '<']:
             # character-level angle matching from the `<` after `Rc`
             k0 = ct[i + 3].start
             depth, k = 0, k0
@@ -421,4 +439,15 @@ def r14_drain_all(text: str) -> List[Edit]:
     return out
 
 
-RULES = {'R14': r14_drain_all, 'R1': r1_trace, 'R2': r2_debug_assert, 'R4': r4_clone_from, 'R5': r5_format, 'R6': r6_attrs_docs, 'R10': r10_inner_use, 'R12': r12_static_str, 'R13': r13_let_chain}
+def r15_position(text: str) -> List[Edit]:
+    """R15: `X.iter().position(CLOSURE)` -> `slice_position(X, CLOSURE)` (an external function of the unit's stubs whose contract
+    is the meaning of `position`: the first index at which the closure yields true, None if there is none; the closure gets an
+    explicit `ensures` through a @closure annotation)."""
+    out = []
+    for m in re.finditer(r'((?:self\s*\.\s*)?[A-Za-z_]\w*(?:\s*\.\s*[A-Za-z_]\w*)*)\s*\.\s*iter\s*\(\s*\)\s*\.\s*position\s*\(', text):
+        x = ''.join(m.group(1).split())
+        out.append(Edit(m.start(), m.end(), 'slice_position(%s, ' % x, 'R15', '%s.iter().position(f) -> slice_position(%s, f)' % (x, x)))
+    return out
+
+
+RULES = {'R15': r15_position, 'R14': r14_drain_all, 'R1': r1_trace, 'R2': r2_debug_assert, 'R4': r4_clone_from, 'R5': r5_format, 'R6': r6_attrs_docs, 'R10': r10_inner_use, 'R12': r12_static_str, 'R13': r13_let_chain}
